@@ -28,6 +28,7 @@ def decode(c):
 
 HASHNAME = z3.Function("hashname", z3.IntSort(), z3.IntSort())
 FIRST_IS_HASH = z3.Function("first_is_hash", z3.IntSort(), z3.BoolSort())
+FIRSTCHAR = z3.Function("str_first_char", z3.IntSort(), z3.IntSort())   # s[0] as a one-character string code
 CONCAT = z3.Function("strconcat", z3.IntSort(), z3.IntSort(), z3.IntSort())
 STR_OF_INT = z3.Function("str_of_int", z3.IntSort(), z3.IntSort())
 
@@ -40,7 +41,14 @@ def axioms():
     ]
     for s, c in _intern.items():
         ax.append(FIRST_IS_HASH(z3.IntVal(c)) == z3.BoolVal(s[:1] == "#"))
+    ax.append(z3.ForAll([n], FIRST_IS_HASH(n) == (FIRSTCHAR(n) == z3.IntVal(code("#")))))
     return ax
+
+
+def first_char(v):
+    if v.py is not None and len(v.py) >= 1:
+        return lit(v.py[0])
+    return Val(STR, [FIRSTCHAR(v.terms[0])])
 
 
 def concat(a, b):
